@@ -294,7 +294,7 @@ func checkC02(rt *caseRT, run interface{ Count(string, int) }) []vio {
 					}
 				}
 				// message position: names the downstream channel (or its vchannel), keeps the source message id
-				if m.Pos.MsgID != m.UID {
+				if c.MsgPositions && m.Pos.MsgID != m.UID {
 					add("C02/message-position-msgid-changed", fmt.Sprintf("uid=%d position msg id %d", m.UID, m.Pos.MsgID))
 				}
 				if m.Pos.Chan != q && funcutil.ToPhysicalChannel(m.Pos.Chan) != q {
